@@ -294,6 +294,17 @@ def check(case, root, with_cli):
             fails.setdefault(f"C18:unlisted:{'mutations' if mut else 'changes'}:{kind}-differs-from-frame-model",
                              f"step {step}: request {payload!r}: {diff} | got={got!r} | want={want!r} | before={canonical(cur)!r}")
             break
+        # read-back against the model itself (independent of the emitter): present / None / value exactly as requested
+        try:
+            back = model.nf_ast(parse(got_file))[0]
+            exp_nf = model.nf_model(expected)[0]
+            if back != exp_nf:
+                fails.setdefault(f"C18:unlisted:{'mutations' if mut else 'changes'}:read-back-differs-from-request",
+                                 f"step {step}: request {payload!r}: {model.first_diff(exp_nf, back, 'doc')} | file={got_file!r}")
+                break
+        except (LexerError, ParserError) as e:
+            fails.setdefault("C18:unlisted:written-file-unreadable", f"step {step}: request {payload!r}: {e} | file={got_file!r}")
+            break
         fv = frame_violations(canonical(cur) if step else c0, got_file, req, mut)
         if fv:
             fails.setdefault("C18:unlisted:unmentioned-lines-changed", f"step {step}: request {payload!r} changed lines outside the named keys: {fv[:3]} | before={(canonical(cur) if step else c0)!r} | after={got_file!r}")
